@@ -173,6 +173,56 @@ pub fn main(args: &[String]) {
             bases.push((backend.to_string(), b, prog));
         }
     }
+    // --- correspondence of the byte-level pieces of the model (C11) ---
+    // (a) checksum64 on random byte strings
+    {
+        let mut ops = std::io::BufWriter::new(std::fs::File::create(outdir.join("fnv_ops.txt")).unwrap());
+        let mut imp = std::io::BufWriter::new(std::fs::File::create(outdir.join("fnv_impl.txt")).unwrap());
+        let mut r = Rng(seed.wrapping_mul(31) + 17);
+        for k in 0..400u64 {
+            let len = match k % 8 { 0 => 0, 1 => 1, 2 => 2, 3 => 7, 4 => 8, 5 => 255, _ => r.below(600) as usize };
+            let data: Vec<u8> = (0..len).map(|_| r.below(256) as u8).collect();
+            let hex: String = if data.is_empty() { "-".into() } else { data.iter().map(|b| format!("{:02x}", b)).collect() };
+            writeln!(ops, "fnv {}", hex).unwrap();
+            writeln!(imp, "{}", walrus_rust::wal::verif_hooks::checksum64(&data)).unwrap();
+        }
+    }
+    // (b) header layout: one entry per topic-name length, headers read back from the WAL files
+    {
+        let hd = root.join("hdr");
+        std::fs::create_dir_all(hd.join("data")).unwrap();
+        let lens: Vec<usize> = vec![1, 2, 6, 7, 8, 9, 15, 16, 17, 23, 24, 25, 31, 32, 33, 64, 100, 199, 200, 201, 215, 216];
+        let mut prog = vec![format!("cfg {} strict fd", if g.small { "small" } else { "real" }), "clock 1700000000000".into(), "open".into()];
+        for k in &lens { prog.push(format!("append {} 5:1", "x".repeat(*k))); }
+        prog.push("close".into());
+        let pf = hd.join("prog.txt");
+        std::fs::write(&pf, prog.join("\n") + "\n").unwrap();
+        let _ = std::process::Command::new(&exe).args(["exec", hd.join("data").to_str().unwrap(), pf.to_str().unwrap(), hd.join("out.txt").to_str().unwrap(), "1"])
+            .stdout(std::process::Stdio::null()).stderr(std::process::Stdio::null()).status().unwrap();
+        let mut ops = std::io::BufWriter::new(std::fs::File::create(outdir.join("hdr_ops.txt")).unwrap());
+        let mut imp = std::io::BufWriter::new(std::fs::File::create(outdir.join("hdr_impl.txt")).unwrap());
+        for f in wal_files(&hd.join("data")) {
+            let b = std::fs::read(&f).unwrap();
+            let mut off = 0usize;
+            while off + 256 <= b.len() {
+                let ml = (b[off] as usize) | ((b[off + 1] as usize) << 8);
+                if ml >= 32 && ml <= 254 {
+                    let buf = &b[off + 2..off + 2 + ml];
+                    let rootb = &buf[ml - 32..];
+                    let (desc, namelen) = if rootb[7] & 0x80 == 0 {
+                        (format!("inline:{}", rootb[7]), rootb[7] as usize)
+                    } else {
+                        let len = u32::from_le_bytes([rootb[0], rootb[1], rootb[2], rootb[3]]);
+                        let rel = i32::from_le_bytes([rootb[4], rootb[5], rootb[6], rootb[7]]);
+                        (format!("ool:{}:{}", len, rel), len as usize)
+                    };
+                    writeln!(ops, "hdr {}", namelen).unwrap();
+                    writeln!(imp, "metalen={} repr={}", ml, desc).unwrap();
+                }
+                off += g.bs as usize;
+            }
+        }
+    }
     let results = std::sync::Mutex::new(Vec::new());
     let next = std::sync::atomic::AtomicUsize::new(0);
     std::thread::scope(|s| {
